@@ -116,6 +116,20 @@ CHECKS = {
             'MIN / MAX / COUNT (+ COUNTBLANK on single areas); AND / OR / IF(AND) over all vectors up to length 4 over 5 truth kinds in '
             '5 forms; vectors up to length 2 as workbook constants',
             'trusted: the 20-line reference fold; dates count as serial numbers (Excel)', 'DESIGN.md section 2 C11'),
+    'C12': ('bounded-exhaustive enumeration of criteria-range vectors x criterion forms x conditional-aggregate variants on the real '
+            'pipeline, judged by an independent select-then-fold reference',
+            'all criteria-range vectors of length 3 (4 thorough) over 8 (10) cell kinds x 29 criterion forms (numbers, texts, six '
+            'operators with numbers, = / <> with texts, operator & cell, criteria read from cells, wildcards ? * ~) x 19 function '
+            'variants (SUMIF 2/3 arguments, SUMIFS / COUNTIFS / AVERAGEIFS with one and two pairs, mixed-content targets, SUMIF '
+            'corner / short / long sum ranges, five size-mismatch forms); vectors of length 2 as workbook constants',
+            'trusted: the reference criterion matcher (DESIGN appendix A.5); targets are powers of two', 'DESIGN.md section 2 C12'),
+    'C13': ('bounded-exhaustive enumeration of IF / IFS / IFERROR nests (programs) x surrounding contexts x truth assignments on the '
+            'real pipeline, judged by a lazy reference evaluator',
+            'all 60 depth-1 constructs over 3 leaf kinds in 10 contexts; all 1920 depth-2 nests (one position nested, the others '
+            'over the leaf kinds) in a rotating context; thorough: depth 3 over the leaf kinds {prime, failing}; condition cells '
+            'overridden with every assignment over {TRUE, FALSE, 1, 0, blank} (<= 3 conditions) or all TRUE/FALSE assignments '
+            'plus single deviations',
+            'trusted: mc/ref/formula.py lazy evaluator', 'DESIGN.md section 2 C13'),
 }
 
 PENDING_REASON = 'check not built yet in this session; see DESIGN.md section 2 for the planned model-checking approach'
